@@ -7,7 +7,7 @@ wt=$(mktemp -d /tmp/vt_wt_XXXXXX); rmdir $wt
 git -C /repo worktree add -q --detach $wt HEAD || exit 2
 trap 'git -C /repo worktree remove --force '$wt' 2>/dev/null' EXIT INT TERM
 git -C $wt apply $patch || { echo "seed=$label patch does not apply"; exit 2; }
-cd /verif
+cd ${VDIR:-/verif}
 for p in "$@"; do
   out=$(VERIF_REPO=$wt ./check $p --tier ${TIER:-quick} 2>&1); rc=$?
   nv=$(echo "$out" | grep -c '^VIOLATION')
